@@ -232,6 +232,21 @@ def check_graph(case, ctx):
                     raise Violation("type-validation-not-a-request", f"{where}: options were read but no TypeValidationRequest was issued")
                 if len(by[EvaluateRequest]) >= 5 and r.must and phase == "warm" and "warm-get" in labels:
                     nontrivial = True
+        # handlers installed by the caller keep applying inside labrea's own nested contexts
+        import labrea.cache
+        import labrea.logging
+        for name, inner in (("cache.disabled()", labrea.cache.disabled), ("logging.disabled()", labrea.logging.disabled)):
+            G2 = build(spec)
+            cm, seen = recording([EvaluateRequest, KeysRequest, TypeValidationRequest])
+            with cm:
+                with inner():
+                    got = run(G2.root.evaluate, o)
+            if got.ok != plain["evaluate"].ok or (got.ok and got.value != plain["evaluate"].value):
+                raise Violation("pass-through-changed-result", f"inside {name}: {plain['evaluate']!r} unhandled but {got!r} under pass-through handlers")
+            if not any(isinstance(q, EvaluateRequest) and q.evaluatable is G2.root for q in seen):
+                raise Violation("handler-lost-in-nested-context", f"options={o}: a pass-through EvaluateRequest handler installed outside {name} observed "
+                                                                  f"nothing inside it ({len(seen)} requests seen)")
+            labels.add("nested-in-" + name)
         for op in ("keys", "validate", "explain"):
             cm, seen = recording()
             with cm:
@@ -275,8 +290,16 @@ def check_substitution(case, ctx):
         with runtime.handle({EvaluateRequest: subst("evaluatable", sentinel), KeysRequest: subst("cacheable", set),
                              ValidateRequest: subst("validatable", None), ExplainRequest: subst("explainable", set)}):
             got = run(G.root.evaluate, o)
+            # ... and still inside labrea's own nested contexts (fresh build: nothing cached from the first evaluation)
+            import labrea.cache
+            G3 = build(spec)
+            tgt_objs[:] = [G3.ds[target]] + [dd for b, dd in G3.derived if b == target]
+            with labrea.cache.disabled():
+                got_nested = run(G3.root.evaluate, o)
         if got.ok != r.ok or (r.ok and got.value != r.value):
             raise Violation("substitution-not-honoured", f"options={o}: substituting {sentinel!r} for {target}: got {got!r} but expected {r!r}")
+        if got_nested.ok != r.ok or (r.ok and got_nested.value != r.value):
+            raise Violation("substitution-lost-in-nested-context", f"options={o}: substituting {sentinel!r} for {target} inside cache.disabled(): got {got_nested!r} but expected {r!r}")
         if r.ok and plain_ref.ok and r.value != plain_ref.value:
             nontrivial = True
             labels.add("substitution-visible")
